@@ -4,6 +4,8 @@ pub mod imgops;
 pub mod maps;
 pub mod recdest;
 pub mod rng;
+pub mod sanitize;
+pub mod synth;
 pub mod trace;
 
 pub use serde_json::{json, Value};
